@@ -557,7 +557,10 @@ def judge(c, ans):
         return None if ans.startswith("ok ") else "expected success"
     if not ans.startswith("ok "):
         return "expected success"
-    body = bytes.fromhex(ans[3:]) if ans[3:] != "-" else b""
+    try:
+        body = bytes.fromhex(ans[3:]) if ans[3:] != "-" else b""
+    except ValueError:
+        return "the reply is not a well-formed answer line (corrupted output): %r" % ans[:120]
     if tag == "value":          # WV date-time text denoting the same value
         return None if wv_value(body) == o[1] else "date-time text denotes %r, expected %r" % (wv_value(body), o[1])
     if tag == "xml_tail":
